@@ -125,7 +125,7 @@ func planC09life(c *Ctx, run int64) *Plan {
 	id := 0
 	mk := func(o Op) { id++; o.ID = id; p.Ops = append(p.Ops, o) }
 	genHdr := func() Op {
-		k := Pick(r, []string{"stamp", "stamp", "stamp-alter", "stamp-rm", "link", "link-alter", "link-rm", "tag", "tag-rm", "meta", "meta-rm", "notes", "uuid"})
+		k := Pick(r, []string{"stamp", "stamp", "stamp-alter", "stamp-rm", "link", "link-alter", "link-detail", "link-rm", "tag", "tag-rm", "meta", "meta-rm", "notes", "uuid"})
 		op := Op{K: k, I: int64(r.IntN(4))}
 		switch k {
 		case "stamp", "stamp-alter":
@@ -144,7 +144,7 @@ func planC09life(c *Ctx, run int64) *Plan {
 	// before signing: some header content (all additions)
 	for i, n := 0, r.IntN(6); i < n; i++ {
 		op := genHdr()
-		if strings.HasSuffix(op.K, "-rm") || strings.HasSuffix(op.K, "-alter") || op.K == "uuid" {
+		if strings.HasSuffix(op.K, "-rm") || strings.HasSuffix(op.K, "-alter") || strings.HasSuffix(op.K, "-detail") || op.K == "uuid" {
 			continue
 		}
 		mk(op)
@@ -331,7 +331,13 @@ func c09present(x *X, s *lifeSlot, chunk int, hist string, modified, restarted b
 		}
 		return
 	}
-	if len(s.m.sigs) != 1 {
+	sameSigner := len(s.m.sigs) > 1
+	for _, sg := range s.m.sigs {
+		if sg.key != s.m.sigs[0].key {
+			sameSigner = false
+		}
+	}
+	if len(s.m.sigs) != 1 && !sameSigner {
 		// unsigned: every path must refuse
 		if len(s.m.sigs) == 0 {
 			for _, ep := range verifyEPs {
@@ -350,6 +356,23 @@ func c09present(x *X, s *lifeSlot, chunk int, hist string, modified, restarted b
 	sg := s.m.sigs[0]
 	cur := snapHeader(s.env.Head)
 	covers, field := cur.covers(sg.snap)
+	// The signer signed more than once (again after additions, or after changes): each signature
+	// stands for the header it was made over. "All of them still contained" is what success
+	// needs on the library paths, which look at every signature; when none of them is contained
+	// any more, no path may succeed; in between the command-line paths (which look at one
+	// signature) are not asserted.
+	coversAny := covers
+	if sameSigner {
+		x.Probe("presented-with-several-signatures-of-one-signer")
+		for _, o := range s.m.sigs[1:] {
+			ok, f := cur.covers(o.snap)
+			if ok {
+				coversAny = true
+			} else if covers {
+				covers, field = false, f
+			}
+		}
+	}
 	valid, why := s.predictValidate(true)
 	other := (sg.key + 1) % len(keyJWK)
 	if restarted {
@@ -371,8 +394,10 @@ func c09present(x *X, s *lifeSlot, chunk int, hist string, modified, restarted b
 				exp = "fail"
 			case key == -1 && !isLib:
 				exp = "fail" // the CLI paths require a key
-			case !covers:
+			case !covers && (isLib || !coversAny):
 				exp = "fail"
+			case !covers:
+				exp = "" // some but not all of the signer's signatures still hold: not asserted off the library paths
 			case valid != "" && !isLib:
 				exp = "fail" // the envelope itself is not valid (e.g. stale digest)
 			case valid != "" && isLib:
